@@ -104,18 +104,14 @@ impl SwiftField for Field61 {
 
         // Parse optional funds code (1 character)
         let mut funds_code = None;
-        if pos < input.len() && input.chars().nth(pos).unwrap().is_alphabetic() {
-            funds_code = Some(input.chars().nth(pos).unwrap());
+        if pos < input.len() && input.as_bytes()[pos].is_ascii_uppercase() {
+            funds_code = Some(input.as_bytes()[pos] as char);
             pos += 1;
         }
 
         // Parse amount - find the next alphabetic character to determine where amount ends
         let amount_start = pos;
-        while pos < input.len()
-            && (input.chars().nth(pos).unwrap().is_ascii_digit()
-                || input.chars().nth(pos).unwrap() == ','
-                || input.chars().nth(pos).unwrap() == '.')
-        {
+        while pos < input.len() && matches!(input.as_bytes()[pos], b'0'..=b'9' | b',' | b'.') {
             pos += 1;
         }
 
@@ -144,59 +140,30 @@ impl SwiftField for Field61 {
         }
 
         let transaction_type = input[pos..pos + 4].to_string();
-        parse_swift_chars(&transaction_type, "Field 61 transaction type")?;
+        // 1!a3!c: a letter, then three upper-case letters or digits
+        if !transaction_type.as_bytes()[0].is_ascii_uppercase()
+            || !transaction_type
+                .bytes()
+                .all(|b| b.is_ascii_uppercase() || b.is_ascii_digit())
+        {
+            return Err(ParseError::InvalidFormat {
+                message: format!(
+                    "Field 61 transaction type must be 1!a3!c, found {}",
+                    transaction_type
+                ),
+            });
+        }
         pos += 4;
 
-        // Parse customer reference (up to 16 characters until // or end)
+        // The rest is 16x[//16x] on this line and [34x] on an optional second line
         let remaining = &input[pos..];
-        let (customer_ref_part, after_customer_ref) =
-            if let Some(double_slash_pos) = remaining.find("//") {
-                (
-                    remaining[..double_slash_pos].to_string(),
-                    Some(&remaining[double_slash_pos + 2..]),
-                )
-            } else {
-                (remaining.to_string(), None)
-            };
-
-        // Customer reference is up to 16 characters
-        let customer_reference;
-        let mut supplementary_details = None;
-
-        if customer_ref_part.len() <= 16 {
-            customer_reference = customer_ref_part;
-        } else {
-            customer_reference = customer_ref_part[..16].to_string();
-            // If customer ref part is > 16 chars and no //, rest is supplementary details
-            if after_customer_ref.is_none() && customer_ref_part.len() > 16 {
-                supplementary_details = Some(customer_ref_part[16..].to_string());
-            }
-        }
-
-        // Parse bank reference and supplementary details (after //)
-        // Format after //: bank_reference[16x][\n]supplementary_details[34x]
-        // Supplementary details may be on a new line or directly concatenated
-        let bank_reference = if let Some(bank_ref_str) = after_customer_ref {
-            // Check if there's a newline separating bank ref from supplementary details
-            if let Some(newline_pos) = bank_ref_str.find('\n') {
-                // Bank reference is before newline, supplementary details after
-                let bank_ref = bank_ref_str[..newline_pos].to_string();
-                if newline_pos + 1 < bank_ref_str.len() {
-                    supplementary_details = Some(bank_ref_str[newline_pos + 1..].to_string());
-                }
-                Some(bank_ref)
-            } else if bank_ref_str.len() > 16 {
-                // No newline, but string is longer than bank ref max
-                // First 16 chars = bank reference, rest = supplementary details
-                supplementary_details = Some(bank_ref_str[16..].to_string());
-                Some(bank_ref_str[..16].to_string())
-            } else if !bank_ref_str.is_empty() {
-                Some(bank_ref_str.to_string())
-            } else {
-                None
-            }
-        } else {
-            None
+        let (reference_line, supplementary_details) = match remaining.split_once('\n') {
+            Some((line, details)) => (line, Some(details.to_string())),
+            None => (remaining, None),
+        };
+        let (customer_reference, bank_reference) = match reference_line.split_once("//") {
+            Some((customer, bank)) => (customer.to_string(), Some(bank.to_string())),
+            None => (reference_line.to_string(), None),
         };
 
         // Validate customer reference length
@@ -209,13 +176,19 @@ impl SwiftField for Field61 {
         parse_swift_chars(&customer_reference, "Field 61 customer reference")?;
 
         if let Some(ref bank_ref) = bank_reference {
+            if bank_ref.is_empty() || bank_ref.len() > 16 {
+                return Err(ParseError::InvalidFormat {
+                    message: "Field 61 bank reference must be 1 to 16 characters".to_string(),
+                });
+            }
             parse_swift_chars(bank_ref, "Field 61 bank reference")?;
         }
 
         if let Some(ref supp_details) = supplementary_details {
-            if supp_details.len() > 34 {
+            if supp_details.is_empty() || supp_details.len() > 34 {
                 return Err(ParseError::InvalidFormat {
-                    message: "Field 61 supplementary details exceed 34 characters".to_string(),
+                    message: "Field 61 supplementary details must be 1 to 34 characters"
+                        .to_string(),
                 });
             }
             parse_swift_chars(supp_details, "Field 61 supplementary details")?;
@@ -257,14 +230,11 @@ impl SwiftField for Field61 {
         if let Some(ref bank_reference) = self.bank_reference {
             result.push_str("//");
             result.push_str(bank_reference);
+        }
 
-            // Supplementary details come on new line after bank reference if present
-            if let Some(ref supplementary_details) = self.supplementary_details {
-                result.push('\n');
-                result.push_str(supplementary_details);
-            }
-        } else if let Some(ref supplementary_details) = self.supplementary_details {
-            // If no bank reference but supplementary details exist, append after customer ref
+        // Supplementary details always stand on a line of their own
+        if let Some(ref supplementary_details) = self.supplementary_details {
+            result.push('\n');
             result.push_str(supplementary_details);
         }
 
